@@ -315,3 +315,96 @@ def nonmonotone_flags(f: FuncInfo):
                     out.append((name, a, lp))
                     break
     return out
+
+
+# ------------------------------------------------------------------------------------------------------
+# Shared rule S5 — per-iteration results are built from per-iteration collections.  Inside a loop L, a local
+# collection X that is grown in L's body (append/extend/add/update/[k]=) and whose content is stored into an
+# object in L's body (obj.attr = …X… / obj[k] = …X…, once per iteration) must be created inside L's body: a
+# collection created before the loop carries the elements of earlier iterations into later results.
+# ------------------------------------------------------------------------------------------------------
+_GROW = ("append", "extend", "add", "update", "insert", "setdefault")
+
+
+def leaked_iteration_collections(f: FuncInfo):
+    """[(name, loop, store stmt)]"""
+    out = []
+    for lp in (n for n in own_nodes(f.node) if isinstance(n, (ast.For, ast.While))):
+        body_nodes = [x for st in lp.body for x in ast.walk(st)]
+        inner_loops = [x for x in body_nodes if isinstance(x, (ast.For, ast.While))]
+
+        def directly_in(x):  # x is in lp's body but not inside a loop nested in lp
+            return not any(any(x is y for y in ast.walk(il)) for il in inner_loops)
+
+        grown = set()
+        for x in body_nodes:
+            if isinstance(x, ast.Call) and isinstance(x.func, ast.Attribute) and x.func.attr in _GROW and isinstance(x.func.value, ast.Name):
+                grown.add(x.func.value.id)
+            elif isinstance(x, ast.Assign) and isinstance(x.targets[0], ast.Subscript) and isinstance(x.targets[0].value, ast.Name):
+                grown.add(x.targets[0].value.id)
+        if not grown:
+            continue
+        created_inside = {t.id for x in body_nodes if isinstance(x, (ast.Assign, ast.AnnAssign)) and getattr(x, "value", None) is not None
+                          for t in (x.targets if isinstance(x, ast.Assign) else [x.target]) if isinstance(t, ast.Name)}
+        for x in body_nodes:
+            if not (isinstance(x, ast.Assign) and isinstance(x.targets[0], (ast.Attribute, ast.Subscript)) and directly_in(x)):
+                continue
+            t = x.targets[0]
+            base = t
+            while isinstance(base, (ast.Attribute, ast.Subscript)):
+                base = base.value
+            if not isinstance(base, ast.Name) or base.id in grown:
+                continue  # X[k] = … is the growth itself
+            used = {y.id for y in ast.walk(x.value) if isinstance(y, ast.Name)} & grown
+            for name in sorted(used - created_inside):
+                # created before the loop in this function (a local, not a parameter)
+                if any(isinstance(a, (ast.Assign, ast.AnnAssign)) and getattr(a, "value", None) is not None and any(
+                        isinstance(tt, ast.Name) and tt.id == name for tt in (a.targets if isinstance(a, ast.Assign) else [a.target]))
+                        and not any(a is y for y in body_nodes) for a in own_nodes(f.node)):
+                    out.append((name, lp, x))
+    return out
+
+
+# ------------------------------------------------------------------------------------------------------
+# Shared rule S6 — a memo key determines the memoised value.  In `if K not in M: M[K] = E` (or M.get/M.setdefault
+# forms) every loop-varying quantity E reads (attribute chains of the loop variables) must also be read by K:
+# otherwise two iterations with the same key but different inputs share one answer.
+# ------------------------------------------------------------------------------------------------------
+def memo_key_gaps(f: FuncInfo):
+    """[(memo name, store stmt, missing attribute chains)]"""
+    out = []
+
+    def chains(e, f_node, depth=0):
+        # attribute chains rooted at names, following single-assignment locals
+        res = set()
+        for x in ast.walk(e):
+            if isinstance(x, ast.Attribute) and isinstance(x.ctx, ast.Load):
+                b = x
+                while isinstance(b, ast.Attribute):
+                    b = b.value
+                if isinstance(b, ast.Name):
+                    res.add(norm(x))
+            elif isinstance(x, ast.Name) and depth < 3:
+                defs = [a.value for a in own_nodes(f_node) if isinstance(a, ast.Assign) and len(a.targets) == 1 and isinstance(a.targets[0], ast.Name)
+                        and a.targets[0].id == x.id]
+                if len(defs) == 1:
+                    res |= chains(defs[0], f_node, depth + 1)
+        # keep only maximal chains (a.b.c subsumes a.b)
+        return {c for c in res if not any(o != c and o.startswith(c + ".") for o in res)}
+
+    for lp in (n for n in own_nodes(f.node) if isinstance(n, ast.For)):
+        lvars = {x.id for x in ast.walk(lp.target) if isinstance(x, ast.Name)}
+        for iff in (x for st in lp.body for x in ast.walk(st) if isinstance(x, ast.If)):
+            t = iff.test
+            if not (isinstance(t, ast.Compare) and len(t.ops) == 1 and isinstance(t.ops[0], ast.NotIn) and isinstance(t.comparators[0], ast.Name)):
+                continue
+            memo, key = t.comparators[0].id, t.left
+            for st in iff.body:
+                if isinstance(st, ast.Assign) and isinstance(st.targets[0], ast.Subscript) and isinstance(st.targets[0].value, ast.Name) \
+                        and st.targets[0].value.id == memo and norm(st.targets[0].slice) == norm(key):
+                    kc = {c for c in chains(key, f.node) if c.split(".")[0] in lvars}
+                    vc = {c for c in chains(st.value, f.node) if c.split(".")[0] in lvars}
+                    missing = sorted(c for c in vc if c not in kc and not any(k == c or c.startswith(k + ".") for k in kc))
+                    if missing or True:
+                        out.append((memo, st, missing))
+    return out
